@@ -275,7 +275,7 @@ def run(tier: str) -> int:
             stats["shapes"]["falsy_value_created"] += 1
         cases.append(nodes)
         reqs.append({"m": "c02.analyse", "id": i, "nodes": [pipegen.model_node(n) for n in nodes], "dtype": first_input_type(nodes)})
-        oreqs.append({"m": "c02.origins", "id": i, "nodes": [pipegen.model_node(n) for n in nodes]})
+        oreqs.append({"m": "c02.origins", "id": i, "nodes": [pipegen.model_node(n) for n in nodes], "dtype": first_input_type(nodes)})
     model = None
     omodel = None
     try:
